@@ -190,6 +190,8 @@ class RandomGen:
                         own = [o for o in tg if o.id == ob.id]
                         p['se%d' % i] = 3
                         p['nobj'] = (own[0] if own and rng.random() < 0.6 else rng.choice(tg)).id
+                        if s['fn'] == 'f' and rng.random() < 0.6:
+                            p['nfn'] = 1     # recursion through the value-returning function itself: f(arg) calls f(arg-1)
                         continue
                 if s['fn'] == 'r' and rng.random() < 0.4:
                     p['se%d' % i] = 4        # write through the in/out parameter
